@@ -24,11 +24,14 @@ var (
 
 // fixedWorld: 2 validators, heights 1..5; block 2 carries two txs and begin/end/tx events, block 3 one tx writing
 // the key "x:41".
-func fixedWorld(t *testing.T) *world {
-	w := &world{plans: map[int64]*lib.HeightPlan{}, planned: map[string]abci.ResponseDeliverTx{}, feat: map[string]bool{}, init: 1}
+func fixedWorld(t *testing.T) *world { return fixedWorldAt(t, 1) }
+
+// fixedWorldAt: the same chain starting at initial height init (heights init..init+4).
+func fixedWorldAt(t *testing.T, init int64) *world {
+	w := &world{plans: map[int64]*lib.HeightPlan{}, planned: map[string]abci.ResponseDeliverTx{}, feat: map[string]bool{}, init: init}
 	w.kv = lib.NewC20KV(stores, map[string]map[string][]byte{"acc": {"a": []byte("genesis-a")}, "meta": {"m": []byte("genesis-m")}})
 	w.kv.ResultFn = func(tx []byte) abci.ResponseDeliverTx { return w.planned[string(tx)] }
-	chain, err := lib.NewChain(lib.ChainSpec{ChainID: "c20-chain", Keys: []int{0, 1}, Powers: []int64{10, 7}})
+	chain, err := lib.NewChain(lib.ChainSpec{ChainID: "c20-chain", InitialHeight: init, Keys: []int{0, 1}, Powers: []int64{10, 7}})
 	if err != nil {
 		t.Fatalf("VERIF-INFRA: NewChain: %v", err)
 	}
@@ -38,10 +41,10 @@ func fixedWorld(t *testing.T) *world {
 	w.planned[string(regTxA)] = abci.ResponseDeliverTx{Code: 0, Data: []byte{1, 2}, GasWanted: 5, GasUsed: 3, Log: "ok", Events: []abci.Event{ev}}
 	w.planned[string(regTxB)] = abci.ResponseDeliverTx{Code: 7, GasWanted: 1, Codespace: "app"}
 	w.planned[string(regTxC)] = abci.ResponseDeliverTx{Code: 0, GasUsed: 9}
-	txsAt := map[int64][][]byte{2: {regTxA, regTxB}, 3: {regTxC}}
-	for h := int64(1); h <= 5; h++ {
+	txsAt := map[int64][][]byte{init + 1: {regTxA, regTxB}, init + 2: {regTxC}}
+	for h := init; h <= init+4; h++ {
 		p := &lib.HeightPlan{DeliverFn: w.kv.DeliverFn, Txs: txsAt[h]}
-		if h == 2 {
+		if h == init+1 {
 			p.BeginEvents, p.EndEvents = []abci.Event{{Type: "begin"}}, []abci.Event{{Type: "end"}}
 		}
 		for i, tx := range p.Txs {
@@ -218,6 +221,52 @@ func TestRegressBlockIDParts(t *testing.T) {
 	res, err := c.Block(bg, i64(3))
 	defect := err == nil && w.consistentBlock(res) != nil
 	regress(t, "TestRegressBlockIDParts", idBlockIDParts, defect, "Block(3) relayed with a falsified block_id.parts.total")
+}
+
+// Against a trusted header with an EMPTY app hash (the header at initial height 2 carries the empty genesis app hash)
+// a proof whose root cannot be computed (total 0) "matches": any forged key/value is relayed.
+func TestRegressQueryEmptyAppHashAnyValue(t *testing.T) {
+	w := fixedWorldAt(t, 2)
+	defer w.close()
+	if len(w.chain.Blocks[2].AppHash) != 0 {
+		t.Fatalf("VERIF-INFRA: header 2 was expected to carry the empty genesis app hash")
+	}
+	li := newLiar(w.core)
+	c, _ := w.newVerifier(t, li, 2, false)
+	li.reset("ABCIQuery", func(res interface{}) bool {
+		p := &res.(*ctypes.ResultABCIQuery).Response
+		forgeImpossible(p, "acc", 0, 0)
+		p.Height = 1
+		return true
+	})
+	res, err := c.ABCIQueryWithOptions(bg, "/store/acc/key", []byte("a"), rpcclient.ABCIQueryOptions{Prove: true})
+	defect := err == nil && w.consistentQuery("/store/acc/key", res) != nil
+	regress(t, "TestRegressQueryEmptyAppHashAnyValue", idEmptyRoot, defect, "forged value relayed for key \"a\" at height 1: %s", jsonOf(res))
+}
+
+// BlockSearch relays whatever blocks the server returns.
+func TestRegressBlockSearchUnverified(t *testing.T) {
+	w := fixedWorld(t)
+	defer w.close()
+	li := newLiar(w.core)
+	c, _ := w.newVerifier(t, li, 1, false)
+	li.reset("BlockSearch", func(res interface{}) bool {
+		rb := res.(*ctypes.ResultBlockSearch).Blocks[1]
+		rb.Block.Data.Txs = append(rb.Block.Data.Txs, types.Tx("forged"))
+		rehashBody(rb.Block)
+		rb.BlockID.Hash = rb.Block.Header.Hash()
+		return true
+	})
+	res, err := c.BlockSearch(bg, "block.height>0", nil, nil, "asc")
+	defect := false
+	if err == nil {
+		for _, rb := range res.Blocks {
+			if w.consistentBlock(rb) != nil {
+				defect = true
+			}
+		}
+	}
+	regress(t, "TestRegressBlockSearchUnverified", idBlockSearch, defect, "BlockSearch relayed a block with a forged transaction and a consistent forged header")
 }
 
 var _ = lrpc.NewClient
